@@ -120,26 +120,30 @@ class FlakyBackend(Entity):
 # AutoScaler
 
 
-def _autoscaler(seed, params, make_policy, strategy):
+def _autoscaler(seed, params, make_policy, strategy, cooldowns=None, limits=None, initial=None):
     p = P(params, seed)
     iv = period(p, 0)
     iv_ns = max(1, int(iv * 1e9))
     sink = Sink("sink")
     svc = iv * 0.9  # long service: servers are busy at the evaluation instants
     conc = min(p.cap(1), 2)  # 4 requests per interval of 0.9 interval each: always saturated
-    first = Server("server_0", concurrency=conc, service_time=ConstantLatency(svc), downstream=sink)
-    lb = LoadBalancer("lb", backends=[first], strategy=strategy)
+    n0 = initial(p) if initial else 1
+    firsts = [Server(f"server_{i}", concurrency=conc, service_time=ConstantLatency(svc), downstream=sink) for i in range(n0)]
+    first = firsts[0]
+    lb = LoadBalancer("lb", backends=firsts, strategy=strategy)
     factory = _Factory(p, sink, service_s=svc, concurrency=conc)
+    cd_out, cd_in = cooldowns(p, iv) if cooldowns else (iv * 1.5, iv * 2.5)
+    lo, hi = limits(p) if limits else (1, p.count(2, 4, lo=2, hi=9))
     scaler = AutoScaler(
         "scaler",
         load_balancer=lb,
         server_factory=factory,
         policy=make_policy(),
-        min_instances=1,
-        max_instances=4,
+        min_instances=lo,
+        max_instances=hi,
         evaluation_interval=iv,
-        scale_out_cooldown=iv * 1.5,
-        scale_in_cooldown=iv * 2.5,
+        scale_out_cooldown=cd_out,
+        scale_in_cooldown=cd_in,
     )
     arr = p.arrivals(10)
     t0 = min(arr)
@@ -154,7 +158,7 @@ def _autoscaler(seed, params, make_policy, strategy):
         return None
 
     ctl = Proc("control", control)
-    sim = make_sim([lb, first, scaler, sink, ctl], p.end())
+    sim = make_sim([lb, *firsts, scaler, sink, ctl], p.end())
     _traffic(sim, lb, arr + wave)
     sim.schedule(ev(t0, "begin", ctl))
     sim.schedule(ev(t0 + 40 * iv_ns, "end", ctl))
@@ -204,17 +208,20 @@ def autoscaler_prerun_start(seed, params):
 # CanaryDeployer
 
 
-def _canary(seed, params, evaluator, factory_of, strategy, prerun=False, stages=None):
+def _canary(seed, params, evaluator, factory_of, strategy, prerun=False, stages=None, eval_iv=None):
     p = P(params, seed)
     iv = period(p, 0)
     iv_ns = max(1, int(iv * 1e9))
     sink = Sink("sink")
     base_svc = below(p.lat(1), iv)
-    servers = [Server(f"server_{i}", concurrency=p.cap(2), service_time=ConstantLatency(base_svc), downstream=sink) for i in range(2)]
+    n_base = p.count(1, 2, hi=9)
+    servers = [Server(f"server_{i}", concurrency=p.cap(2), service_time=ConstantLatency(base_svc), downstream=sink) for i in range(n_base)]
     lb = LoadBalancer("lb", backends=servers, strategy=strategy)
     factory = factory_of(p, sink, iv, base_svc)
     st = stages(iv) if stages else [CanaryStage(0.1, iv * 2), CanaryStage(0.5, iv * 2), CanaryStage(1.0, iv)]
-    dep = CanaryDeployer("canary", lb, factory, stages=st, metric_evaluator=evaluator, evaluation_interval=iv)
+    dep = CanaryDeployer(
+        "canary", lb, factory, stages=st, metric_evaluator=evaluator, evaluation_interval=(eval_iv(iv) if eval_iv else iv)
+    )
     arr = p.arrivals(10)
     t0 = min(arr)
     wave = _wave(t0, 10 * iv_ns, 50)
@@ -281,17 +288,24 @@ def canary_rollback_error_rate(seed, params):
 # RollingDeployer
 
 
-def _rolling(seed, params, factory_of, batch, healthy_threshold, max_failures, n_servers=3, prerun=False):
+def _rolling(seed, params, factory_of, batch, healthy_threshold, max_failures, n_servers=3, prerun=False, hc_iv=None, fixed_n=False):
     p = P(params, seed)
     iv = period(p, 0)
     iv_ns = max(1, int(iv * 1e9))
     sink = Sink("sink")
     svc = below(p.lat(1), iv)
+    n_servers = n_servers if fixed_n else p.count(0, n_servers, hi=9)
     servers = [Server(f"server_{i}", concurrency=p.cap(1), service_time=ConstantLatency(svc), downstream=sink) for i in range(n_servers)]
     lb = LoadBalancer("lb", backends=servers, strategy=RoundRobin())
     factory = factory_of(p, sink, iv, svc)
     dep = RollingDeployer(
-        "roll", lb, factory, batch_size=batch(p), health_check_interval=iv, healthy_threshold=healthy_threshold, max_failures=max_failures
+        "roll",
+        lb,
+        factory,
+        batch_size=batch(p) if batch(p) > 0 else n_servers - batch(p),
+        health_check_interval=(hc_iv(iv) if hc_iv else iv),
+        healthy_threshold=healthy_threshold,
+        max_failures=max_failures,
     )
     arr = p.arrivals(10)
     t0 = min(arr)
@@ -361,3 +375,140 @@ def rolling_late_passes(seed, params):
         return _Factory(p, sink, make=lambda name, k: FlakyBackend(name, iv + below(p.lat(2), iv), downstream=sink))
 
     return _rolling(seed, params, factory_of, batch=lambda p: 2, healthy_threshold=1, max_failures=3, n_servers=4)
+
+
+# ----------------------------------------------------------------------
+# sibling parameters out of proportion
+
+
+@scenario("deployment.autoscaler_cooldown_out_longer_than_in", FAMILY)
+def autoscaler_cooldown_out_longer_than_in(seed, params):
+    return _autoscaler(
+        seed, params, lambda: StepScaling([(0.9, 1), (0.0, -1)]), RoundRobin(), cooldowns=lambda p, iv: (iv * 4.0, iv * 0.5)
+    )
+
+
+@scenario("deployment.autoscaler_cooldowns_tiny", FAMILY)
+def autoscaler_cooldowns_tiny(seed, params):
+    """Both cooldowns of 1..2 ns << evaluation_interval: every evaluation may scale."""
+    return _autoscaler(seed, params, lambda: TargetUtilization(target=0.4), RoundRobin(), cooldowns=lambda p, iv: (1e-9, 2e-9))
+
+
+@scenario("deployment.autoscaler_cooldowns_zero", FAMILY)
+def autoscaler_cooldowns_zero(seed, params):
+    """Both cooldowns 0.0 (accepted): never in cooldown, scaling at consecutive evaluations."""
+    return _autoscaler(seed, params, lambda: StepScaling([(0.9, 2), (0.5, 1), (0.0, -1)]), RoundRobin(), cooldowns=lambda p, iv: (0.0, 0.0))
+
+
+@scenario("deployment.autoscaler_cooldowns_huge", FAMILY)
+def autoscaler_cooldowns_huge(seed, params):
+    """Both cooldowns >> evaluation_interval (longer than the run): one scaling action, then always blocked."""
+    return _autoscaler(
+        seed, params, lambda: QueueDepthScaling(scale_out_threshold=2, scale_in_threshold=0), LeastConnections(),
+        cooldowns=lambda p, iv: (p.end() * 3.0, p.end() * 2.0),
+    )  # fmt: skip
+
+
+@scenario("deployment.autoscaler_cooldown_equals_interval", FAMILY)
+def autoscaler_cooldown_equals_interval(seed, params):
+    """cooldown == evaluation_interval exactly: the boundary of `elapsed < cooldown` at every evaluation."""
+    return _autoscaler(seed, params, lambda: StepScaling([(0.5, 1), (0.0, -1)]), RoundRobin(), cooldowns=lambda p, iv: (iv, iv))
+
+
+@scenario("deployment.autoscaler_fixed_size", FAMILY)
+def autoscaler_fixed_size(seed, params):
+    """min_instances == max_instances == number of initial servers: the policy may never change anything."""
+    n = lambda p: p.count(0, 2, hi=5)  # noqa: E731
+    return _autoscaler(
+        seed, params, lambda: TargetUtilization(target=0.3), RoundRobin(),
+        cooldowns=lambda p, iv: (below(p.lat(1), iv), below(p.lat(2), iv)), limits=lambda p: (n(p), n(p)), initial=n,
+    )  # fmt: skip
+
+
+@scenario("deployment.autoscaler_below_minimum", FAMILY)
+def autoscaler_below_minimum(seed, params):
+    """Starts with ONE server below min_instances (3..): the scaler has to add up to the minimum, max == min + 1."""
+    lo = lambda p: p.count(0, 3, lo=2, hi=6)  # noqa: E731
+    return _autoscaler(
+        seed, params, lambda: TargetUtilization(target=0.9), RoundRobin(),
+        cooldowns=lambda p, iv: (iv * 0.1, iv * 0.1), limits=lambda p: (lo(p), lo(p) + 1),
+    )  # fmt: skip
+
+
+def _healthy_factory(p, sink, iv, svc):
+    return _Factory(p, sink, service_s=svc, concurrency=p.cap(2))
+
+
+@scenario("deployment.canary_eval_interval_much_longer", FAMILY)
+def canary_eval_interval_much_longer(seed, params):
+    """evaluation_interval = 40 x the stage duration: every evaluation ends a stage."""
+    return _canary(
+        seed, params, ErrorRateEvaluator(), _healthy_factory, WeightedRoundRobin(),
+        stages=lambda iv: [CanaryStage(0.1, iv / 40.0), CanaryStage(0.5, iv / 40.0), CanaryStage(1.0, iv / 40.0)],
+    )  # fmt: skip
+
+
+@scenario("deployment.canary_eval_interval_much_shorter", FAMILY)
+def canary_eval_interval_much_shorter(seed, params):
+    """evaluation_interval = stage duration / 25: many evaluations inside one stage."""
+    return _canary(
+        seed, params, LatencyEvaluator(max_latency=10.0), _healthy_factory, WeightedRoundRobin(),
+        stages=lambda iv: [CanaryStage(0.2, iv), CanaryStage(1.0, iv * 1.5)], eval_iv=lambda iv: iv / 25.0,
+    )  # fmt: skip
+
+
+@scenario("deployment.canary_one_stage", FAMILY)
+def canary_one_stage(seed, params):
+    """A single 100% stage whose duration is shorter than one evaluation interval."""
+    return _canary(
+        seed, params, ErrorRateEvaluator(), _healthy_factory, RoundRobin(), prerun=True,
+        stages=lambda iv: [CanaryStage(1.0, iv * 0.5)],
+    )  # fmt: skip
+
+
+@scenario("deployment.canary_zero_length_stages", FAMILY)
+def canary_zero_length_stages(seed, params):
+    """p.count stages of evaluation_period 0.0 (accepted): each first evaluation completes its stage."""
+    n = P(params, seed).count(0, 4, hi=10)
+    return _canary(
+        seed, params, LatencyEvaluator(max_latency=10.0), _healthy_factory, WeightedRoundRobin(),
+        stages=lambda iv: [CanaryStage(min(1.0, (k + 1) / n), 0.0) for k in range(n)], eval_iv=lambda iv: iv / 5.0,
+    )  # fmt: skip
+
+
+@scenario("deployment.rolling_interval_much_longer_than_service", FAMILY)
+def rolling_interval_much_longer_than_service(seed, params):
+    """health_check_interval = 1000 x the time a new instance needs to answer the probe; threshold 1."""
+    return _rolling(
+        seed, params,
+        lambda p, sink, iv, svc: _Factory(p, sink, make=lambda name, k: FlakyBackend(name, iv / 1000.0, downstream=sink)),
+        batch=lambda p: 1, healthy_threshold=1, max_failures=1,
+    )  # fmt: skip
+
+
+@scenario("deployment.rolling_interval_much_shorter_than_service", FAMILY)
+def rolling_interval_much_shorter_than_service(seed, params):
+    """health_check_interval = 1/40 of the probe answer time: every probe times out, answers arrive late."""
+    return _rolling(
+        seed, params,
+        lambda p, sink, iv, svc: _Factory(p, sink, make=lambda name, k: FlakyBackend(name, iv, downstream=sink)),
+        batch=lambda p: 2, healthy_threshold=1, max_failures=4, hc_iv=lambda iv: iv / 40.0,
+    )  # fmt: skip
+
+
+@scenario("deployment.rolling_batch_covers_all_backends", FAMILY)
+def rolling_batch_covers_all_backends(seed, params):
+    """batch_size = number of backends + 2: everything is replaced in one batch (real Servers)."""
+    return _rolling(
+        seed, params, lambda p, sink, iv, svc: _Factory(p, sink, service_s=svc), batch=lambda p: -2, healthy_threshold=1, max_failures=1
+    )
+
+
+@scenario("deployment.rolling_single_backend", FAMILY)
+def rolling_single_backend(seed, params):
+    """ONE backend, threshold 1, the new instance answers exactly at the timeout instant."""
+    return _rolling(
+        seed, params,
+        lambda p, sink, iv, svc: _Factory(p, sink, make=lambda name, k: FlakyBackend(name, iv, downstream=sink)),
+        batch=lambda p: 1, healthy_threshold=1, max_failures=2, n_servers=1, fixed_n=True,
+    )  # fmt: skip
